@@ -281,7 +281,7 @@ def split_cases():
             continue
         perms = list(itertools.permutations(parts))
         for perm in perms[:24]:
-            for grouping in ('left', 'right', 'balanced'):
+            for grouping in ('left', 'right', 'balanced', 'commented'):
                 yield dict(kind='split', parts=[list(p) for p in perm],
                            grouping=grouping)
     # with one Streett pair (then no separate recurrence conjuncts)
@@ -291,7 +291,7 @@ def split_cases():
                      [('action', s) for s in ACT_MENU[:na]] +
                      [('pair', pair)])
             for perm in itertools.permutations(parts):
-                for grouping in ('left', 'right'):
+                for grouping in ('left', 'right', 'commented'):
                     yield dict(kind='split', parts=[list(p) for p in perm],
                                grouping=grouping)
 
@@ -469,6 +469,11 @@ def _group(items, how):
         return items[0]
     if how == 'left':
         return ' /\\ '.join(items)
+    if how == 'commented':
+        # one conjunct per line, each followed by a one-line comment,
+        # a block comment in front (documented comment forms)
+        return '(* spec *) ' + '\n /\\ '.join(
+            f'{x}  \\* part {i}' for i, x in enumerate(items)) + '\n'
     if how == 'right':
         return items[0] + ' /\\ (' + _group(items[1:], how) + ')'
     m = len(items) // 2
